@@ -63,6 +63,28 @@ def run_case(rs, ctx):
         ctx.count("multi_chunk_simulations")
     p = spec["params"]
     bandits = [("b%d" % i, gen.build(c)) for i, c in enumerate(spec["cfgs"])]
+    if not big and ctx.index % 4 == 2:
+        # bandits that were already used before they are handed to the Simulator (trained on some rows and queried, so their random
+        # streams have advanced): the reference is still a deep copy of the bandit as handed in
+        used = []
+        for (name, m), c in zip(bandits, spec["cfgs"]):
+            if rs.integers(3) == 0:
+                used.append((name, m))
+                continue
+            k_ = min(len(spec["d"]), 16)
+            try:
+                if gen.is_ctx(c):
+                    Xw = np.asarray(spec["X"][:k_], dtype=float)
+                    m.fit(np.asarray(spec["d"][:k_]), np.asarray(spec["r"][:k_], dtype=float), Xw)
+                    m.predict(Xw[:3])
+                else:
+                    m.fit(np.asarray(spec["d"][:k_]), np.asarray(spec["r"][:k_], dtype=float))
+                    m.predict()
+                ctx.count("bandits_used_before_the_simulation")
+            except Exception:  # noqa: BLE001 - the warm-up rows do not suit this configuration: hand in a fresh bandit instead
+                m = gen.build(c)
+            used.append((name, m))
+        bandits = used
     twins = {name: copy.deepcopy(m) for name, m in bandits}
     wit = {"simulation": {k: spec[k] for k in ("cfgs", "d", "r", "X", "params")}} if not big else \
         {"simulation": {"cfgs": spec["cfgs"], "params": p, "data": "gen_big_simulation (102000 rows, regenerated from the case index)"}}
